@@ -2246,3 +2246,95 @@ func ruleL13(r *Run) {
 		r.Check(under == "", key, fd.Pos(), "no dialing call between Lock and Unlock", "getConn calls "+under+", which connects to the server (dial, handshake, OnConnect hook), while it holds the write lock of the connection pool: the lock serialises all servers and all calls of this client, so a connect that hangs makes a call to a healthy server over an open connection wait as well - a call with a 300 ms time-out returned after 2.7 s")
 	}
 }
+
+// ---------------------------------------------------------------------------------------------------
+// W15 the argument / result list cannot be referred to from inside itself
+// W16 Convert's fallback re-encodes in reference mode
+
+func init() {
+	register("W15", "the RPC codecs give the list they decode element by element (the arguments of a request, the results of a response) its place in the reference numbering with a nil placeholder, never with the address of the list: every Decoder.AddReference call in rpc/ passes nil - a registered list can be referred to from inside itself (r0), the reference converter then copies the slice header into an element, the list contains itself BY VALUE, and the decoder's own fmt.Sprint or the response encoder recurses until the stack overflows (a fatal error that no recover contains: 16 bytes end the server process)", 2, ruleW15)
+	register("W16", "io.Convert, which is applied to values that came from the wire (results of the reverse and push plugins, JSON-RPC parameters), does not fall back on the package-level simple-mode Marshal/Unmarshal: simple mode does not track references, so a value that contains itself through a pointer (a1{r0;} decoded into interface{}) is followed until the stack overflows; the re-encoding uses a reference-mode formatter or encoder", 1, ruleW16)
+}
+
+func ruleW15(r *Run) {
+	p := r.P
+	addRef := p.LookupFunc("io", "Decoder.AddReference")
+	if addRef == nil {
+		r.Undec("io.Decoder.AddReference", 0, "not found")
+		return
+	}
+	n := 0
+	p.EachFunc(func(pkg *packages.Package, fd *ast.FuncDecl) {
+		if !strings.HasPrefix(p.RelPkg(pkg.Types), "rpc") {
+			return
+		}
+		info := pkg.TypesInfo
+		k := 0
+		ast.Inspect(fd.Body, func(m ast.Node) bool {
+			c, ok := m.(*ast.CallExpr)
+			if !ok || Callee(info, c) != addRef || len(c.Args) != 1 {
+				return true
+			}
+			n++
+			k++
+			id, isID := ast.Unparen(c.Args[0]).(*ast.Ident)
+			r.Check(isID && id.Name == "nil", fmt.Sprintf("placeholder for the decoded list in %s #%d", p.DeclName(fd), k), c.Pos(), "AddReference(nil)", "the codec registers `"+types.ExprString(c.Args[0])+"` in the decoder's reference table: the peer can refer to the list from inside itself (r0 in the place of a []interface{} parameter), the slice header is copied into an element and the list contains itself by value - fmt.Sprint in the decoder or the encoder of the response then recurses until the stack overflows, which ends the process")
+			return true
+		})
+	})
+	if n == 0 {
+		r.Undec("reference placeholders of the codecs", 0, "no Decoder.AddReference call found in rpc/")
+	}
+}
+
+func ruleW16(r *Run) {
+	p := r.P
+	fd, pkg := p.DeclOf("io", "Convert")
+	key := "io.Convert re-encodes in reference mode"
+	if fd == nil {
+		r.Undec(key, 0, "not found")
+		return
+	}
+	info := pkg.TypesInfo
+	bad := ""
+	recodes := false
+	ast.Inspect(fd.Body, func(m ast.Node) bool {
+		c, ok := m.(*ast.CallExpr)
+		if !ok {
+			return true
+		}
+		f := Callee(info, c)
+		if f == nil || !p.InRepo(f) {
+			return true
+		}
+		switch f.Name() {
+		case "Marshal", "Unmarshal", "Encode", "Decode":
+			recodes = true
+			// the package-level functions use the default (simple) formatter
+			if sig := f.Type().(*types.Signature); sig.Recv() == nil {
+				bad = f.Name()
+			}
+		}
+		return true
+	})
+	if !recodes {
+		r.Ok(key, fd.Pos(), "Convert does not re-encode at all")
+		return
+	}
+	// the formatter / encoder used is not simple: no `Simple: true`, no Simple(true)
+	simple := false
+	ast.Inspect(fd.Body, func(m ast.Node) bool {
+		switch x := m.(type) {
+		case *ast.KeyValueExpr:
+			if id, ok := x.Key.(*ast.Ident); ok && id.Name == "Simple" && types.ExprString(x.Value) == "true" {
+				simple = true
+			}
+		case *ast.CallExpr:
+			if methodName(x) == "Simple" && len(x.Args) == 1 && types.ExprString(x.Args[0]) == "true" {
+				simple = true
+			}
+		}
+		return true
+	})
+	r.Check(bad == "" && !simple, key, fd.Pos(), "a reference-mode formatter", "Convert falls back on simple-mode coding ("+bad+"): the value may have been decoded from the wire and contain itself through a pointer; simple mode writes no references and follows the cycle until the stack overflows - a 49-byte reply from a provider ends a service that uses the reverse plugin")
+}
